@@ -4,7 +4,7 @@
    never answered / failing at once / parent context ended before / during the ping); I is the
    interval, T the per-ping timeout (numbers; I = 0 and T = 0 stand for non-positive durations).
    [ka_env] is the same loop for arbitrary Ping behaviours and cancellation points.
-   [ka_react]/[loop_react] are reconnclient.go:108-149. *)
+   [ka_react]/[loop_react] are reconnclient.go:120-161. *)
 From MQ Require Import Base KeepAlive KeepAlive_proofs.
 Open Scope N_scope.
 
@@ -120,7 +120,7 @@ Proof. exact late_cancel_ignored. Qed.
 
 (* "a peer going silent at any time", also after the caller cancelled the context it passed to
    Connect: the keep-alive context of every connection, the first included, descends from the
-   loop's context AFTER it was replaced by Background (reconnclient.go:97-101 before :111), so
+   loop's context AFTER it was replaced by Background (reconnclient.go:108-112 before :120), so
    ending the caller's context at any point changes nothing for the keep-alive *)
 Theorem C13_caller_cancel_after_connect_irrelevant : forall I T cc peer, 0 < I ->
   rc_conn_keepalive I T cc peer = rc_keepalive I T peer.
@@ -131,11 +131,22 @@ Proof. exact caller_cancel_after_connect_irrelevant. Qed.
    PINGRESPs never answer a later ping, so a peer that answered n pings, however often, and then
    stays silent is reported after exactly n+1 PINGREQs *)
 Theorem C13_stale_pingresp_inert : forall I T pre u post, 0 < I ->
-  Forall (fun ur => snd ur <> O) pre ->
-  wire_outcomes (pre ++ (u, O) :: post) = answered (repeat 0 (length pre)) ++ Never :: wire_outcomes post /\
-  ko_result (keepalive I T (wire_outcomes (pre ++ (u, O) :: post))) = KA_returned EPingTimeout /\
-  pings (keepalive I T (wire_outcomes (pre ++ (u, O) :: post))) = S (length pre).
+  Forall (fun x => peer_answers x = true) pre ->
+  wire_outcomes (pre ++ (u, O, O) :: post) = answered (repeat 0 (length pre)) ++ Never :: wire_outcomes post /\
+  ko_result (keepalive I T (wire_outcomes (pre ++ (u, O, O) :: post))) = KA_returned EPingTimeout /\
+  pings (keepalive I T (wire_outcomes (pre ++ (u, O, O) :: post))) = S (length pre).
 Proof. exact stale_pingresp_inert. Qed.
+
+(* "keeps running as long as each response arrives within the timeout", however early: the
+   channel is installed BEFORE the PINGREQ is written (pingreq.go:31-36), so a PINGRESP
+   dispatched at any time after the write started, before the Ping reaches its select included,
+   answers the ping; the loop runs through any number of pings answered with zero delay *)
+Theorem C13_zero_delay_pingresp_answers : forall I T uzrs, 0 < I ->
+  (forall st u z r, sl_wait st = false -> (0 < z + r)%nat -> slot_run st (ping_events (u, z, r)) = [SAnswered]) /\
+  (Forall (fun x => peer_answers x = true) uzrs ->
+   ko_result (keepalive I T (wire_outcomes uzrs)) = KA_running /\
+   pings (keepalive I T (wire_outcomes uzrs)) = length uzrs).
+Proof. exact zero_delay_pingresp_answers. Qed.
 
 (* time.NewTicker's panic on a non-positive interval is unreachable from the reconnecting client *)
 Theorem C13_no_panic_from_reconnect : forall I T s o, rc_keepalive I T s = Some o -> ko_result o <> KA_panic.
@@ -167,3 +178,4 @@ Print Assumptions C13_no_panic_from_reconnect.
 Print Assumptions C13_model_times_are_lower_bounds.
 Print Assumptions C13_caller_cancel_after_connect_irrelevant.
 Print Assumptions C13_stale_pingresp_inert.
+Print Assumptions C13_zero_delay_pingresp_answers.
